@@ -1,13 +1,563 @@
-// Package c04 is the harness for property C04 (runs the real kapacitor code, prints op lines).
+// Package c04 is the harness for property C04: it compiles generated lambda ASTs with the REAL
+// stateful.NewExpression and evaluates them over HISTORIES of scopes with changing field types through
+// Expression.Eval, Type+EvalBool (what EvalPredicate does after fillScope), the direct EvalX methods and
+// Type, on the expression itself and on CopyReset copies, and prints what the implementation answered.
+// External library calls (regex matching, math/strings/strconv/time functions) are computed here with the
+// Go library directly — never through kapacitor — and carried in the op lines as oracle tables.
 package c04
 
 import (
 	"fmt"
 	"os"
+	"regexp"
+	"strconv"
+	"strings"
+	"time"
+
+	"github.com/influxdata/kapacitor/tick/ast"
+	"github.com/influxdata/kapacitor/tick/stateful"
+
+	"verifharness/kit"
 )
 
-// Run is replaced by the property's harness.
+// ---- values ----
+
+func renderVal(v interface{}) string {
+	switch x := v.(type) {
+	case bool:
+		if x {
+			return "b:1"
+		}
+		return "b:0"
+	case int64:
+		return "i:" + strconv.FormatInt(x, 10)
+	case float64:
+		return "f:" + kit.F64(x)
+	case string:
+		return "s:" + kit.Esc(x)
+	case time.Duration:
+		return "d:" + strconv.FormatInt(int64(x), 10)
+	case *regexp.Regexp:
+		return "r:" + kit.Esc(x.String())
+	case time.Time:
+		return "t:" + strconv.FormatInt(x.UnixNano(), 10)
+	case *ast.Missing:
+		return "m"
+	}
+	return "?"
+}
+
+func parseVal(tok string) (interface{}, error) {
+	if tok == "m" {
+		return ast.MissingValue, nil
+	}
+	i := strings.IndexByte(tok, ':')
+	if i < 0 {
+		return nil, fmt.Errorf("bad value %q", tok)
+	}
+	k, body := tok[:i], tok[i+1:]
+	switch k {
+	case "b":
+		return body == "1", nil
+	case "i":
+		v, err := strconv.ParseInt(body, 10, 64)
+		return v, err
+	case "d":
+		v, err := strconv.ParseInt(body, 10, 64)
+		return time.Duration(v), err
+	case "t":
+		v, err := strconv.ParseInt(body, 10, 64)
+		return time.Unix(0, v).UTC(), err
+	case "f":
+		if body == "nan" {
+			body = "7ff8000000000001"
+		}
+		v, err := strconv.ParseUint(body, 16, 64)
+		return f64frombits(v), err
+	case "s":
+		return kit.Unesc(body)
+	case "r":
+		p, err := kit.Unesc(body)
+		if err != nil {
+			return nil, err
+		}
+		return regexp.Compile(p)
+	}
+	return nil, fmt.Errorf("bad value %q", tok)
+}
+
+func tyName(t ast.ValueType) string {
+	switch t {
+	case ast.TFloat:
+		return "float"
+	case ast.TInt:
+		return "int"
+	case ast.TString:
+		return "string"
+	case ast.TBool:
+		return "bool"
+	case ast.TRegex:
+		return "regex"
+	case ast.TTime:
+		return "time"
+	case ast.TDuration:
+		return "duration"
+	case ast.TMissing:
+		return "missing"
+	case ast.InvalidType:
+		return "invalid"
+	}
+	return "other"
+}
+
+func leanTy(t ast.ValueType) string { return "." + tyName(t) }
+
+// ---- expressions: token form <-> ast ----
+
+var binOps = map[string]ast.TokenType{
+	"and": ast.TokenAnd, "or": ast.TokenOr, "eq": ast.TokenEqual, "ne": ast.TokenNotEqual, "lt": ast.TokenLess,
+	"le": ast.TokenLessEqual, "gt": ast.TokenGreater, "ge": ast.TokenGreaterEqual, "reEq": ast.TokenRegexEqual,
+	"reNe": ast.TokenRegexNotEqual, "plus": ast.TokenPlus, "minus": ast.TokenMinus, "mult": ast.TokenMult,
+	"div": ast.TokenDiv, "mod": ast.TokenMod,
+}
+
+// ex is the harness's own expression tree.
+type ex struct {
+	kind string // L R U B F FM
+	op   string // operator / function name / reference name
+	val  interface{}
+	kids []*ex
+}
+
+func (e *ex) tokens() []string {
+	switch e.kind {
+	case "L":
+		return []string{"L", renderVal(e.val)}
+	case "R":
+		return []string{"R", kit.Esc(e.op)}
+	case "U":
+		return append([]string{"U", e.op}, e.kids[0].tokens()...)
+	case "B":
+		t := []string{"B", e.op}
+		t = append(t, e.kids[0].tokens()...)
+		return append(t, e.kids[1].tokens()...)
+	case "FM":
+		return []string{"FM", e.op}
+	default:
+		t := []string{"F", e.op, strconv.Itoa(len(e.kids))}
+		for _, k := range e.kids {
+			t = append(t, k.tokens()...)
+		}
+		return t
+	}
+}
+
+func parseEx(t []string) (*ex, []string, error) {
+	if len(t) == 0 {
+		return nil, nil, fmt.Errorf("empty expression")
+	}
+	switch t[0] {
+	case "L":
+		v, err := parseVal(t[1])
+		return &ex{kind: "L", val: v}, t[2:], err
+	case "R":
+		n, err := kit.Unesc(t[1])
+		return &ex{kind: "R", op: n}, t[2:], err
+	case "U":
+		k, rest, err := parseEx(t[2:])
+		return &ex{kind: "U", op: t[1], kids: []*ex{k}}, rest, err
+	case "B":
+		l, rest, err := parseEx(t[2:])
+		if err != nil {
+			return nil, nil, err
+		}
+		r, rest, err := parseEx(rest)
+		return &ex{kind: "B", op: t[1], kids: []*ex{l, r}}, rest, err
+	case "FM":
+		return &ex{kind: "FM", op: t[1]}, t[2:], nil
+	case "F":
+		n, _ := strconv.Atoi(t[2])
+		e := &ex{kind: "F", op: t[1]}
+		rest := t[3:]
+		for i := 0; i < n; i++ {
+			k, r, err := parseEx(rest)
+			if err != nil {
+				return nil, nil, err
+			}
+			e.kids = append(e.kids, k)
+			rest = r
+		}
+		return e, rest, nil
+	}
+	return nil, nil, fmt.Errorf("bad expression token %q", t[0])
+}
+
+func (e *ex) node() ast.Node {
+	switch e.kind {
+	case "L":
+		switch v := e.val.(type) {
+		case bool:
+			return &ast.BoolNode{Bool: v}
+		case int64:
+			return &ast.NumberNode{IsInt: true, Int64: v}
+		case float64:
+			return &ast.NumberNode{IsFloat: true, Float64: v}
+		case string:
+			return &ast.StringNode{Literal: v}
+		case time.Duration:
+			return &ast.DurationNode{Dur: v}
+		case *regexp.Regexp:
+			return &ast.RegexNode{Regex: v, Literal: v.String()}
+		}
+		return &ast.StringNode{Literal: "?"}
+	case "R":
+		return &ast.ReferenceNode{Reference: e.op}
+	case "U":
+		op := ast.TokenNot
+		if e.op == "neg" {
+			op = ast.TokenMinus
+		}
+		return &ast.UnaryNode{Operator: op, Node: e.kids[0].node()}
+	case "B":
+		return &ast.BinaryNode{Operator: binOps[e.op], Left: e.kids[0].node(), Right: e.kids[1].node()}
+	case "FM":
+		args := []ast.Node{}
+		for i := 0; i < 5; i++ {
+			args = append(args, &ast.NumberNode{IsFloat: true, Float64: 1})
+		}
+		return &ast.FunctionNode{Type: ast.GlobalFunc, Func: e.op, Args: args}
+	default:
+		args := []ast.Node{}
+		for _, k := range e.kids {
+			args = append(args, k.node())
+		}
+		return &ast.FunctionNode{Type: ast.GlobalFunc, Func: e.op, Args: args}
+	}
+}
+
+// ---- running one case on the real code ----
+
+type binding struct {
+	name string
+	val  interface{}
+}
+
+func mkScope(bs []binding) *stateful.Scope {
+	s := stateful.NewScope()
+	for _, b := range bs {
+		s.Set(b.name, b.val)
+	}
+	return s
+}
+
+func obsValue(v interface{}, err error) string {
+	if err != nil {
+		return "err"
+	}
+	return "ok " + renderVal(v)
+}
+
+// leafVal: the value of a leaf argument (literal or reference) under the bindings; ok=false when undefined.
+func leafVal(e *ex, bs []binding) (interface{}, bool) {
+	switch e.kind {
+	case "L":
+		return e.val, true
+	case "R":
+		for _, b := range bs {
+			if b.name == e.op {
+				return b.val, true
+			}
+		}
+	}
+	return nil, false
+}
+
+// oracleLines: for every regex node and every library function call with leaf operands, the library's answer
+// under these bindings.
+func oracleLines(e *ex, bs []binding, seen map[string]bool, out *[]string) {
+	for _, k := range e.kids {
+		oracleLines(k, bs, seen, out)
+	}
+	add := func(l string) {
+		if !seen[l] {
+			seen[l] = true
+			*out = append(*out, l)
+		}
+	}
+	switch {
+	case e.kind == "B" && (e.op == "reEq" || e.op == "reNe"):
+		l, okl := leafVal(e.kids[0], bs)
+		r, okr := leafVal(e.kids[1], bs)
+		if okl && okr {
+			if s, ok := l.(string); ok {
+				if re, ok := r.(*regexp.Regexp); ok {
+					b := "0"
+					if re.MatchString(s) {
+						b = "1"
+					}
+					add("re " + kit.Esc(re.String()) + " " + kit.Esc(s) + " " + b)
+				}
+			}
+		}
+	case e.kind == "F" && !nativeFn[e.op]:
+		args := []interface{}{}
+		toks := []string{}
+		for _, k := range e.kids {
+			v, ok := leafVal(k, bs)
+			if !ok {
+				return
+			}
+			args = append(args, v)
+			toks = append(toks, renderVal(v))
+		}
+		res := "err"
+		if v, ok := libCall(e.op, args); ok {
+			res = renderVal(v)
+		}
+		add(strings.TrimSpace("ora " + e.op + " " + strings.Join(toks, " ") + " " + res))
+	}
+}
+
+// functions the Lean model defines itself (everything else is an external call answered by libCall)
+var nativeFn = map[string]bool{"count": true, "sigma": true, "spread": true, "if": true, "isPresent": true}
+
+type evalOp struct {
+	inst  int
+	path  string
+	binds []binding
+}
+
+func (o evalOp) line() string {
+	t := []string{"ev", strconv.Itoa(o.inst), o.path}
+	for _, b := range o.binds {
+		t = append(t, kit.Esc(b.name), renderVal(b.val))
+	}
+	return strings.Join(t, " ")
+}
+
+// execCase runs the lines of one case (observations stripped) and returns them with fresh observations and
+// fresh oracle lines.
+func execCase(lines []string) (out []string) {
+	var e *ex
+	var insts = map[int]stateful.Expression{}
+	seen := map[string]bool{}
+	// first pass: expression + all scopes, to emit the oracle tables before the evaluations
+	var evs []evalOp
+	for _, raw := range lines {
+		line := raw
+		if i := strings.Index(line, " => "); i >= 0 {
+			line = line[:i]
+		}
+		t := strings.Fields(line)
+		if len(t) == 0 {
+			continue
+		}
+		switch t[0] {
+		case "expr":
+			x, _, err := parseEx(t[1:])
+			if err != nil {
+				return []string{"bad " + err.Error()}
+			}
+			e = x
+		case "ev":
+			k, _ := strconv.Atoi(t[1])
+			o := evalOp{inst: k, path: t[2]}
+			for i := 3; i+1 < len(t); i += 2 {
+				n, _ := kit.Unesc(t[i])
+				v, err := parseVal(t[i+1])
+				if err != nil {
+					return []string{"bad " + err.Error()}
+				}
+				o.binds = append(o.binds, binding{n, v})
+			}
+			evs = append(evs, o)
+		}
+	}
+	if e == nil {
+		return []string{"bad no-expression"}
+	}
+	out = append(out, "expr "+strings.Join(e.tokens(), " "))
+	var oras []string
+	for _, o := range evs {
+		oracleLines(e, o.binds, seen, &oras)
+	}
+	out = append(out, oras...)
+	guard := func(line string, f func() string) {
+		defer func() {
+			if r := recover(); r != nil {
+				out = append(out, line+" => panic")
+			}
+		}()
+		out = append(out, line+" => "+f())
+	}
+	evIdx := 0
+	for _, raw := range lines {
+		line := raw
+		if i := strings.Index(line, " => "); i >= 0 {
+			line = line[:i]
+		}
+		t := strings.Fields(line)
+		if len(t) == 0 {
+			continue
+		}
+		switch t[0] {
+		case "compile":
+			guard("compile", func() string {
+				se, err := stateful.NewExpression(e.node())
+				if err != nil {
+					return "err"
+				}
+				insts[0] = se
+				return "ok"
+			})
+		case "inst":
+			k, _ := strconv.Atoi(t[1])
+			if insts[0] != nil {
+				insts[k] = insts[0].CopyReset()
+				out = append(out, line)
+			}
+		case "ev":
+			o := evs[evIdx]
+			evIdx++
+			se := insts[o.inst]
+			if se == nil {
+				if insts[0] == nil {
+					continue // the expression did not compile: nothing to evaluate
+				}
+				out = append(out, "bad unknown-instance")
+				continue
+			}
+			guard(o.line(), func() string {
+				sc := mkScope(o.binds)
+				switch o.path {
+				case "eval":
+					return obsValue(se.Eval(sc))
+				case "pred":
+					if _, err := se.Type(sc); err != nil {
+						return "err"
+					}
+					return obsValue(se.EvalBool(sc))
+				case "type":
+					ty, err := se.Type(sc)
+					if err != nil {
+						return "err"
+					}
+					return "ok " + tyName(ty)
+				case "dInt":
+					return obsValue(se.EvalInt(sc))
+				case "dFloat":
+					return obsValue(se.EvalFloat(sc))
+				case "dString":
+					return obsValue(se.EvalString(sc))
+				case "dBool":
+					return obsValue(se.EvalBool(sc))
+				case "dDuration":
+					return obsValue(se.EvalDuration(sc))
+				}
+				return "bad-path"
+			})
+		}
+	}
+	return out
+}
+
+func emit(out *kit.Out, id string, lines []string) {
+	out.Line("case", id)
+	for _, l := range lines {
+		out.Line(l)
+	}
+	out.Line("end")
+}
+
+// genSigs writes lean/Kap/Gen/C04Sigs.lean from the Signature() maps of the linked kapacitor.
+func genSigs() int {
+	lean := os.Getenv("VERIF_LEAN")
+	if lean == "" {
+		lean = "/verif/lean"
+	}
+	funcs := stateful.NewFunctions()
+	names := []string{}
+	for n := range funcs {
+		names = append(names, n)
+	}
+	sortStrings(names)
+	var b strings.Builder
+	b.WriteString("-- GENERATED by vh-c04 -gensigs from stateful.NewFunctions()[name].Signature() of the linked kapacitor — do not edit.\n")
+	b.WriteString("import Kap.Model.C04Base\nnamespace Kap.C04.Gen\nopen Kap.C04\n\n/-- builtin function signatures (domain ↦ return type) -/\ndef sigs : List Sig := [\n")
+	var rows []string
+	for _, n := range names {
+		var doms []string
+		for d, ret := range funcs[n].Signature() {
+			var tys []string
+			for _, t := range d {
+				if t == ast.InvalidType {
+					break
+				}
+				tys = append(tys, leanTy(t))
+			}
+			doms = append(doms, fmt.Sprintf("  { name := %q, dom := [%s], ret := %s }", n, strings.Join(tys, ", "), leanTy(ret)))
+		}
+		sortStrings(doms)
+		rows = append(rows, doms...)
+	}
+	b.WriteString(strings.Join(rows, ",\n"))
+	b.WriteString("\n]\n\nend Kap.C04.Gen\n")
+	path := lean + "/Kap/Gen/C04Sigs.lean"
+	os.MkdirAll(lean+"/Kap/Gen", 0o755)
+	old, _ := os.ReadFile(path)
+	if string(old) != b.String() {
+		if err := os.WriteFile(path, []byte(b.String()), 0o644); err != nil {
+			fmt.Fprintln(os.Stderr, err)
+			return 1
+		}
+	}
+	fmt.Printf("gensigs: %d signatures -> %s\n", len(rows), path)
+	return 0
+}
+
+func sortStrings(xs []string) {
+	for i := 1; i < len(xs); i++ {
+		for j := i; j > 0 && xs[j] < xs[j-1]; j-- {
+			xs[j], xs[j-1] = xs[j-1], xs[j]
+		}
+	}
+}
+
+// Run: `vh-c04 -seed S -n N [-tier thorough]` generates; `vh-c04 -ops file` re-executes the cases of a file;
+// `vh-c04 -gensigs x` regenerates the signature table.
 func Run(args []string) int {
-	fmt.Fprintln(os.Stderr, "c04: harness not implemented yet")
-	return 3
+	f := kit.ParseFlags(args)
+	if _, ok := f.Extra["gensigs"]; ok {
+		return genSigs()
+	}
+	out := kit.NewOut()
+	defer out.Flush()
+	if f.Ops != "" {
+		lines, err := kit.ReadLines(f.Ops)
+		if err != nil {
+			fmt.Fprintln(os.Stderr, err)
+			return 2
+		}
+		var cur []string
+		id := ""
+		for _, l := range lines {
+			t := strings.Fields(l)
+			switch {
+			case len(t) == 2 && t[0] == "case":
+				id, cur = t[1], nil
+			case len(t) == 1 && t[0] == "end":
+				emit(out, id, execCase(cur))
+				out.Flush()
+			default:
+				cur = append(cur, l)
+			}
+		}
+		return 0
+	}
+	r := kit.NewRand(f.Seed)
+	for i := 0; i < f.N; i++ {
+		emit(out, fmt.Sprintf("g%d", i), execCase(genCase(r.Fork(), i, f.Tier == "thorough")))
+		out.Flush()
+	}
+	return 0
 }
